@@ -33,7 +33,10 @@ type limitShape struct {
 
 // runtimeLimited: shapes that may meet a limit of the running machine (call
 // depth, nesting depth of values); for them a run-time error is an answer.
-var runtimeLimited = map[string]bool{"recursion-depth": true, "value-nesting-built-at-run-time": true, "array-literal-nesting": true, "index-chain": true}
+// The number is the size from which on that is so: the documented limits are
+// 10000, and nine tenths of a limit is not the limit.
+var runtimeLimited = map[string]int{"recursion-depth": 9000, "recursion-depth-inside-loops": 9000, "recursion-depth-inside-function-scopes": 9000,
+	"value-nesting-built-at-run-time": 9000, "array-literal-nesting": 9000, "index-chain": 5000}
 
 func rep(s string, n int) string { return strings.Repeat(s, n) }
 
@@ -169,6 +172,14 @@ func limitShapes() []limitShape {
 		{"recursion-depth", false, callSizes, func(n int) (string, lang.Value) {
 			return fmt.Sprintf("function down(n) { if ( n <= 0 ) { return 0; } return 1 + down(n - 1); }\nreturn down(%d);", n), lang.Int(int64(n))
 		}},
+		{"recursion-depth-inside-loops", false, []int{0, 1, 2, 4998, 4999, 5000, 5001, 6000, 8999, 9996, 9998, 10000, 10002}, func(n int) (string, lang.Value) {
+			// the limit is on calls: scopes opened by loops around the call do not count
+			return fmt.Sprintf("function down(n) { if ( n <= 0 ) { return 0; } return 1 + down(n - 1); }\nr = 0;\nforeach v in [1] { foreach i, w in \"a\" { k = 0; while ( k < 1 ) { k = k + 1; r = down(%d); } } }\nreturn r;", n), lang.Int(int64(n))
+		}},
+		{"recursion-depth-inside-function-scopes", false, []int{0, 1, 2, 3332, 3333, 3334, 4999, 5000, 5001, 8990}, func(n int) (string, lang.Value) {
+			// every level of the recursion sits in a loop body and holds locals
+			return fmt.Sprintf("function down(n) { local a; local b; a = n; if ( n <= 0 ) { return 0; } foreach v in [1] { b = 1 + down(n - 1); } return b + a - n; }\nreturn down(%d);", n), lang.Int(int64(n))
+		}},
 		{"value-nesting-built-at-run-time", false, []int{1, 2, 9997, 9998, 9999, 10000, 10001, 10002}, func(n int) (string, lang.Value) {
 			return fmt.Sprintf("a = 7; n = 0; while ( n < %d ) { a = [a]; n = n + 1; }\nd = 0; while ( type(a) == \"array\" ) { a = a[0]; d = d + 1; }\nreturn [d, a];", n),
 				lang.Array(lang.Int(int64(n)), lang.Int(7))
@@ -228,6 +239,10 @@ func limitShapes() []limitShape {
 	}
 }
 
+// alsoC06: shapes about calling functions, run under C06 as well.
+var alsoC06 = map[string]bool{"recursion-depth": true, "recursion-depth-inside-loops": true, "recursion-depth-inside-function-scopes": true, "call-nesting": true,
+	"call-arguments": true, "functions": true, "statements-in-function": true}
+
 func runLimits(t *testing.T, prop string, stmt bool) {
 	defer silenceAs("limits")()
 	col := evid.New(prop, "limits", "scripts at the limits of the implementation (nesting 10000, operator chains and compile depth 100000, call depth 10000, value nesting 10000, 65535 bytes of code, 65536 constants) and at the sizes where 8- and 16-bit quantities wrap: deterministic shapes (parentheses, prefix chains, array/call/index nesting, operator chains, element/constant/pair/argument counts, recursion depth, values nested at run time; if/while/foreach nesting, else-if chains, switch arms, statement and function counts, long jumps) at sizes on both sides of each limit, optimizer on and off; oracle: the value known by construction, or an error from Prepare or the run - never another value; non-trivial = size >= 255; distinct by shape and size")
@@ -236,7 +251,11 @@ func runLimits(t *testing.T, prop string, stmt bool) {
 	k := 0
 	vars := map[string]lang.Value{"x": lang.Int(7), "t": lang.Bool(true), "one": lang.Int(1)}
 	for _, sh := range limitShapes() {
-		if sh.stmt != stmt {
+		if prop == "C06" {
+			if !alsoC06[sh.name] {
+				continue
+			}
+		} else if sh.stmt != stmt {
 			continue
 		}
 		for _, n := range sh.sizes {
@@ -268,7 +287,7 @@ func runLimits(t *testing.T, prop string, stmt bool) {
 					violation(t, prop, c, "shape %s at size %d (optimizer off: %v): the script was still running when its 20 s deadline expired", sh.name, n, noOpt)
 				case res.Err != nil:
 					out = "run-time error"
-					if !runtimeLimited[sh.name] {
+					if from, limited := runtimeLimited[sh.name]; !limited || n < from {
 						// nothing in this shape meets a limit while it runs: it is
 						// refused by Prepare or it runs to its value
 						violation(t, prop, c, "shape %s at size %d (optimizer off: %v): accepted by Prepare, then the run failed: %v", sh.name, n, noOpt, res.Err)
@@ -300,3 +319,4 @@ func clipMiddle(s string, n int) string {
 
 func TestC01Limits(t *testing.T) { runLimits(t, "C01", false) }
 func TestC02Limits(t *testing.T) { runLimits(t, "C02", true) }
+func TestC06Limits(t *testing.T) { runLimits(t, "C06", false) }
